@@ -8,7 +8,7 @@
     and over the four deterministic update functions; over all engine states, all event feeds and
     all scripts of requests sent by commands, hooks and algo generation. *)
 From Coq Require Import List ZArith NArith Bool.
-From BV Require Import Model.Replica Proofs.Replica.
+From BV Require Import Base.Common Model.Replica Proofs.Replica Corr.C10 Proofs.CorrC10.
 Import ListNotations.
 
 Section C10.
@@ -154,6 +154,23 @@ Print Assumptions C10_orders_modulo_markers.
 Print Assumptions C10_run_replicated.
 Print Assumptions C10_gap_rejected.
 Print Assumptions C10_repeat_skipped.
+
+(** The correspondence oracle is no stricter than the model: whenever the model reproduces every
+    observation of a case ([corr_b]), the observations satisfy the property oracle ([prop_b]) -
+    for every case, perturbed streams included. No separate well-formedness hypothesis is needed:
+    [prop_b] itself asks for the simulation part only when the processed part of the feed meets
+    the input requirements ([wf_case], i.e. [hyps]), and that is the one place the proof uses them.
+    Hence a [prop_b] failure on a case the model agrees with is impossible, and an oracle failure
+    always means the implementation left the model. *)
+Theorem C10_oracle_sound : forall c : case, corr_b c = true -> prop_b c = true.
+Proof. exact oracle_sound. Qed.
+Print Assumptions C10_oracle_sound.
+
+(** the form with the input requirements spelled as a hypothesis *)
+Theorem C10_oracle_sound_wf : forall c : case,
+  wf_case c = true -> corr_b c = true -> prop_b c = true.
+Proof. intros c _. exact (oracle_sound c). Qed.
+Print Assumptions C10_oracle_sound_wf.
 
 (** Non-vacuity: a concrete history meets the hypotheses. [rest] is a log of the updates applied
     (so equality of [rest] is equality of everything the shared code did). The engine opens an
